@@ -1,2 +1,3 @@
 SPECIFICATION TraceSpec
+CONSTANT Prop = "C12"
 INVARIANT Consumed
